@@ -29,7 +29,7 @@ type c14Case struct {
 type c14Reader struct {
 	Kind int `json:"kind,omitempty"` // which well-known error the injected error wraps (ops.FaultErr)
 	At   int `json:"at"`
-	Mode int `json:"mode"` // 0: (0,E) after At bytes; 1: (n,E) with the last chunk
+	Mode int `json:"mode"` // 0: (0,E) after At bytes, sticky; 1: (n,E) with the last chunk; 2: (0,E) once, then the reader works again
 	Chunk int `json:"chunk,omitempty"`
 }
 
@@ -154,7 +154,7 @@ func c14All(t failer, col *collector, c c14Case, stride int) {
 	if c.Entry == "md" {
 		n := len(cs.Doc)
 		for k := 0; k <= n; k += stride {
-			for mode := 0; mode < 2; mode++ {
+			for mode := 0; mode < 3; mode++ {
 				if mode == 1 && k == 0 {
 					continue
 				}
@@ -178,7 +178,14 @@ func c14All(t failer, col *collector, c c14Case, stride int) {
 		if w == 0 && len(res.Color) > 0 {
 			w = 1
 		}
+		wstride := 1
+		if w > 60 {
+			wstride = w / 40 // big documents: the first and last ten write indexes and every wstride-th in between
+		}
 		for j := 0; j < w; j++ {
+			if wstride > 1 && j >= 10 && j < w-10 && j%wstride != 0 {
+				continue
+			}
 			for v := 0; v < 3; v++ {
 				cc := c
 				cc.Writer = &c14Writer{At: j, Kind: (j + v) % 6}
@@ -267,7 +274,12 @@ func TestC14Random(t *testing.T) {
 				names = sampled(validElemPool())
 			}
 		}
-		f := genForest(forestParams{maxNodes: 12, maxDepth: 6, names: names, oneRoot: entry == "root" || mode == "toml"}).Draw(rt, "forest")
+		var f model.Forest
+		if rapid.IntRange(0, 24).Draw(rt, "wide") == 0 && entry == "md" && mode != "toml" && op == "output" {
+			f = genWideForest(sampled(poolTiny)).Draw(rt, "wideForest") // roots whose rendering exceeds 4 KiB / 64 KiB
+		} else {
+			f = genForest(forestParams{maxNodes: 12, maxDepth: 6, names: names, oneRoot: entry == "root" || mode == "toml"}).Draw(rt, "forest")
+		}
 		if (op == "verify" || op == "mkdir") && hasDupRoots(f) {
 			uniqRoots(f)
 		}
@@ -281,6 +293,9 @@ func TestC14Random(t *testing.T) {
 		stride := 1
 		if n := len(model.Spell(f, c.Sp)); n > 400 {
 			stride = n / 400
+			if n > 8000 {
+				stride = n / 60
+			}
 		}
 		c14All(rt, col, c, stride)
 	})
